@@ -341,6 +341,10 @@ def run(db, chk):
     chk.absorb(db, "C19", {"C19-L2"}, "C16-T4", "basins / pits of a (snapshot) graph are recomputed from the tables it "
                "holds at the time of the query (shared with C19-L2): the snapshot operator overwrites those tables "
                "without going through the facade", min_instances=3)
+    chk.absorb(db, "C20", {"C20-T1", "C20-T5"}, "C16-T7", "every snapshot graph is allocated with the columns of the state it "
+               "saves (a multiple-direction state needs all receiver columns) and does not claim to be single-direction "
+               "when it is not (shared with C20-T1 / T5)",
+               pred=lambda o: "snapshot(" in o["instance"] or "single_flow=false" in o["instance"], min_instances=50)
     chk.absorb(db, "C04", {"C04-S1"}, "C16-T5", "the single-direction state a snapshot copies is complete after the "
                "router: count and weight one are rewritten at every update (shared with C04-S1)", min_instances=100)
 
